@@ -14,6 +14,15 @@
        is pending ([pl_waker]) and WaitersRef::notify wakes it when a later readiness check
        (the dispatcher's own, or the `ctx.call(&self.service, ..)` inside `call`) completes.
    The inner service is always ready (as the v3/v5 dispatchers are when their handlers are).
+   `InFlightServiceImpl::call` is an async fn: the `publish` flag update and `count.get(size)` (inc)
+   run when the call future is first POLLED, not when `call_nowait` creates it.  io.rs::call_service
+   polls the future at once only when no earlier response is outstanding (`state.response` empty);
+   otherwise it `spawn`s it and the first poll happens after Dispatcher::poll has returned.  Hence
+   three operations: [Call] (hand-over and first poll together), [Submit] (hand-over only) and
+   [Start] (first poll of a handed-over call).
+   Outside the model ([Err E_OUTSIDE]): a first poll while the dispatcher's readiness check is
+   pending -- that call would park in WaitersRef::run (its pipeline clone has its own waiters index)
+   until the readiness check completes; io.rs never hands a frame over in that state.
    Definitions only. *)
 From MV Require Import Base.Prelude Base.Res.
 
@@ -46,35 +55,39 @@ Record lim := mkLim {
   paused : bool;             (* the binding keeps a pending ready() future = the last poll_ready was Pending *)
   woken : bool;              (* the dispatcher's waker has been woken since its last poll_ready *)
   may_call : bool;           (* reading rule: the last poll_ready answered Ready and no call was made since *)
-  running : list call        (* calls whose handler has not finished, oldest first *)
+  running : list call;       (* calls whose handler has not finished, oldest first *)
+  submitted : list (kind * N) (* call futures created by call_nowait and not polled yet (spawned), oldest first *)
 }.
 
-Definition lim_init (mc ms : N) : lim := mkLim mc ms 0 0 false false false false false false [].
+Definition lim_init (mc ms : N) : lim := mkLim mc ms 0 0 false false false false false false [] [].
 
 Definition set_counts (s : lim) (cap size : N) : lim :=
   mkLim (max_cap s) (max_size s) cap size (publish_flag s) (waker_registered s) (pl_waker s) (paused s)
-        (woken s) (may_call s) (running s).
+        (woken s) (may_call s) (running s) (submitted s).
 Definition set_flag (s : lim) (b : bool) : lim :=
   mkLim (max_cap s) (max_size s) (cur_cap s) (cur_size s) b (waker_registered s) (pl_waker s) (paused s)
-        (woken s) (may_call s) (running s).
+        (woken s) (may_call s) (running s) (submitted s).
 Definition set_waker (s : lim) (b : bool) : lim :=
   mkLim (max_cap s) (max_size s) (cur_cap s) (cur_size s) (publish_flag s) b (pl_waker s) (paused s)
-        (woken s) (may_call s) (running s).
+        (woken s) (may_call s) (running s) (submitted s).
 Definition set_plw (s : lim) (b : bool) : lim :=
   mkLim (max_cap s) (max_size s) (cur_cap s) (cur_size s) (publish_flag s) (waker_registered s) b (paused s)
-        (woken s) (may_call s) (running s).
+        (woken s) (may_call s) (running s) (submitted s).
 Definition set_paused (s : lim) (b : bool) : lim :=
   mkLim (max_cap s) (max_size s) (cur_cap s) (cur_size s) (publish_flag s) (waker_registered s) (pl_waker s) b
-        (woken s) (may_call s) (running s).
+        (woken s) (may_call s) (running s) (submitted s).
 Definition set_woken (s : lim) (b : bool) : lim :=
   mkLim (max_cap s) (max_size s) (cur_cap s) (cur_size s) (publish_flag s) (waker_registered s) (pl_waker s)
-        (paused s) b (may_call s) (running s).
+        (paused s) b (may_call s) (running s) (submitted s).
 Definition set_may (s : lim) (b : bool) : lim :=
   mkLim (max_cap s) (max_size s) (cur_cap s) (cur_size s) (publish_flag s) (waker_registered s) (pl_waker s)
-        (paused s) (woken s) b (running s).
+        (paused s) (woken s) b (running s) (submitted s).
 Definition set_running (s : lim) (l : list call) : lim :=
   mkLim (max_cap s) (max_size s) (cur_cap s) (cur_size s) (publish_flag s) (waker_registered s) (pl_waker s)
-        (paused s) (woken s) (may_call s) l.
+        (paused s) (woken s) (may_call s) l (submitted s).
+Definition set_submitted (s : lim) (l : list (kind * N)) : lim :=
+  mkLim (max_cap s) (max_size s) (cur_cap s) (cur_size s) (publish_flag s) (waker_registered s) (pl_waker s)
+        (paused s) (woken s) (may_call s) (running s) l.
 
 (* LocalWaker::wake on CounterInner.task: take the waker, wake it *)
 Definition task_wake (s : lim) : lim :=
@@ -124,15 +137,26 @@ Definition dec (s : lim) (size : N) : res lim :=
   let s1 := set_counts s cap nsz in
   Ok (if (num =? max_cap s) || ((max_size s <? csz) && (nsz <=? max_size s)) then task_wake s1 else s1).
 
-(* InFlightServiceImpl::call up to the first suspension of the handler (call_nowait + first poll) *)
-Definition step_call (s : lim) (k : kind) (size : N) : res lim :=
+Definition E_OUTSIDE : N := 90.
+
+(* first poll of a call future: InFlightServiceImpl::call up to the first suspension of the handler *)
+Definition first_poll (s : lim) (k : kind) (size : N) : res lim :=
+  if paused s then Err E_OUTSIDE else
   let f1 := if publish_flag s && negb (is_chunk k) then false else publish_flag s in
   let f2 := if is_publish k then true else f1 in
   let s1 := set_flag s f2 in
   let gsize := if 0 <? max_size s then size else 0 in
   let* s2 := inc s1 gsize in                               (* self.count.get(size) *)
   let s3 := notify s2 in                                    (* ctx.call(&self.service, req): ReadyCall completes *)
-  Ok (set_may (set_running s3 (running s3 ++ [mkCall k gsize])) false).
+  Ok (set_running s3 (running s3 ++ [mkCall k gsize])).
+
+(* call_service with `state.response` empty: call_nowait and the first poll in one go *)
+Definition step_call (s : lim) (k : kind) (size : N) : res lim :=
+  let* s1 := first_poll s k size in Ok (set_may s1 false).
+
+(* call_service while an earlier response is outstanding: call_nowait, then spawn *)
+Definition step_submit (s : lim) (k : kind) (size : N) : lim :=
+  set_may (set_submitted s (submitted s ++ [(k, size)])) false.
 
 Fixpoint remove_nth {A} (n : nat) (l : list A) : list A :=
   match l, n with
@@ -148,16 +172,27 @@ Definition step_complete (s : lim) (k : nat) : res lim :=
   | Some c => dec (set_running s (remove_nth k (running s))) (c_size c)
   end.
 
+(* the j-th spawned call is polled for the first time *)
+Definition step_start (s : lim) (j : nat) : res lim :=
+  match nth_error (submitted s) j with
+  | None => Ok s
+  | Some (k, size) => first_poll (set_submitted s (remove_nth j (submitted s))) k size
+  end.
+
 Inductive op :=
 | Ready
 | Call (k : kind) (size : N)
-| Complete (k : nat).
+| Complete (k : nat)
+| Submit (k : kind) (size : N)
+| Start (j : nat).
 
 Definition step (s : lim) (o : op) : res lim :=
   match o with
   | Ready => Ok (step_ready s)
   | Call k size => step_call s k size
   | Complete k => step_complete s k
+  | Submit k size => Ok (step_submit s k size)
+  | Start j => step_start s j
   end.
 
 Fixpoint run_from (s : lim) (ops : list op) : res lim :=
@@ -167,28 +202,60 @@ Fixpoint run_from (s : lim) (ops : list op) : res lim :=
   end.
 Definition run (mc ms : N) (ops : list op) : res lim := run_from (lim_init mc ms) ops.
 
-(* the reading rule of io.rs: a frame is decoded and handed to the service only right after a
-   poll_ready that answered Ready, one frame per answer *)
+(* The reading rule of io.rs: a frame is decoded and handed to the service only right after a
+   poll_ready that answered Ready, one frame per answer; poll_ready and the hand-over happen inside
+   one Dispatcher::poll, so no spawned task runs in between.  This is all that io.rs guaranteed
+   before /repo commit d435312. *)
+Definition rr_allowed (s : lim) (o : op) : bool :=
+  match o with
+  | Call _ _ | Submit _ _ => may_call s
+  | Start _ => negb (may_call s)
+  | _ => true
+  end.
+Fixpoint reading_rule_go (s : lim) (ops : list op) : bool :=
+  match ops with
+  | [] => true
+  | o :: r => rr_allowed s o && match step s o with Ok s' => reading_rule_go s' r | _ => true end
+  end.
+Definition reading_rule (mc ms : N) (ops : list op) : bool := reading_rule_go (lim_init mc ms) ops.
+
+(* What the repaired io.rs guarantees in addition (commit d435312: after spawning a call
+   Dispatcher::poll wakes itself and returns Pending; the executor queue of ntex-rt is FIFO, so the
+   spawned task is polled before the dispatcher runs again): readiness is polled only when every
+   spawned call has had its first poll.  With the reading rule: between the hand-over of a spawned
+   call and the next poll_ready / hand-over there is always its first poll. *)
+Definition op_allowed (s : lim) (o : op) : bool :=
+  match o with
+  | Ready => match submitted s with [] => true | _ => false end
+  | _ => rr_allowed s o
+  end.
 Fixpoint legal_go (s : lim) (ops : list op) : bool :=
   match ops with
   | [] => true
-  | o :: r =>
-    (match o with Call _ _ => may_call s | _ => true end) &&
-    match step s o with Ok s' => legal_go s' r | _ => true end
+  | o :: r => op_allowed s o && match step s o with Ok s' => legal_go s' r | _ => true end
   end.
 Definition legal (mc ms : N) (ops : list op) : bool := legal_go (lim_init mc ms) ops.
+
+(* every call future is polled at hand-over (no spawned first polls) *)
+Definition inline_op (o : op) : bool := match o with Submit _ _ | Start _ => false | _ => true end.
+Definition inline (ops : list op) : bool := forallb inline_op ops.
 
 (* what the v3 codec and `SizedRequest for Decoded` guarantee about the order of frames: after a
    streamed PUBLISH come its payload chunks and nothing else until the final one; chunks occur
    only there; a chunk has size() = 0 *)
 Definition chunk_kind (k : kind) : bool := match k with KChunk | KChunkFinal => true | _ => false end.
+Definition frame_of (o : op) : option (kind * N) :=
+  match o with Call k size | Submit k size => Some (k, size) | _ => None end.
 Fixpoint wf_stream_go (streaming : bool) (ops : list op) : bool :=
   match ops with
   | [] => true
-  | Call k size :: r =>
-    if streaming then chunk_kind k && (size =? 0) && wf_stream_go (is_chunk k) r
-    else negb (chunk_kind k) && wf_stream_go (is_publish k) r
-  | _ :: r => wf_stream_go streaming r
+  | o :: r =>
+    match frame_of o with
+    | Some (k, size) =>
+      if streaming then chunk_kind k && (size =? 0) && wf_stream_go (is_chunk k) r
+      else negb (chunk_kind k) && wf_stream_go (is_publish k) r
+    | None => wf_stream_go streaming r
+    end
   end.
 Definition wf_stream (ops : list op) : bool := wf_stream_go false ops.
 
@@ -196,15 +263,26 @@ Definition wf_stream (ops : list op) : bool := wf_stream_go false ops.
 Fixpoint last_size_go (last : N) (ops : list op) : N :=
   match ops with
   | [] => last
-  | Call k size :: r => last_size_go (if chunk_kind k then last else size) r
-  | _ :: r => last_size_go last r
+  | o :: r =>
+    match frame_of o with
+    | Some (k, size) => last_size_go (if chunk_kind k then last else size) r
+    | None => last_size_go last r
+    end
   end.
 Definition last_size (ops : list op) : N := last_size_go 0 ops.
 
-Definition op_size_ok (o : op) : bool := match o with Call _ size => size <=? U32MAX | _ => true end.
+Definition op_size_ok (o : op) : bool := match frame_of o with Some (_, size) => size <=? U32MAX | None => true end.
 
 Definition count_kind (p : kind -> bool) (l : list call) : N := lenN (filter (fun c => p (c_kind c)) l).
 Definition publish_kind (k : kind) : bool := match k with KPubComplete | KPubStream => true | _ => false end.
+Definition nonchunk (k : kind) : bool := negb (chunk_kind k).
+
+(* three complete PUBLISH packets that arrive in one read: the first is polled at hand-over, the
+   other two are spawned and polled after Dispatcher::poll has returned -- the schedule of io.rs
+   before /repo commit d435312 *)
+Definition deferred_ops (size : N) : list op :=
+  [Ready; Call KPubComplete size; Ready; Submit KPubComplete size; Ready; Submit KPubComplete size;
+   Start 0; Start 0].
 
 (* ---- engine "limiter" (number 35): see harness/src/engines/limiter.rs for the case syntax ---- *)
 Definition kind_of (n : N) : kind :=
@@ -221,10 +299,12 @@ Definition op_of_field (f : list N) : option op :=
   | [1] => Some Ready
   | [2; k; size] => Some (Call (kind_of k) (N.min size U32MAX))
   | [3; k] => Some (Complete (N.to_nat k))
+  | [4; k; size] => Some (Submit (kind_of k) (N.min size U32MAX))
+  | [5; j] => Some (Start (N.to_nat j))
   | _ => None
   end.
 
-Definition obs_of (s : lim) : list N := [b2n (may_call s); b2n (woken s); lenN (running s)].
+Definition obs_of (s : lim) : list N := [b2n (may_call s); b2n (woken s); lenN (running s); lenN (submitted s)].
 
 Fixpoint run_fields (s : lim) (c : list (list N)) : res (list (list N)) :=
   match c with
